@@ -184,7 +184,7 @@ fn output_choice(t: &mut Tape, tree: &mut Tree, ext: &str) -> Option<String> {
     }
 }
 
-const SOURCE_FAULTS: &[&str] = &["truncate", "bitflip", "delete", "empty_file", "invalid_utf8", "dir_in_place_of_file", "zero_range", "dup_range"];
+const SOURCE_FAULTS: &[&str] = &["truncate", "bitflip", "delete", "empty_file", "invalid_utf8", "insert_multibyte", "dir_in_place_of_file", "zero_range", "dup_range"];
 const DEP_FAULTS: &[&str] = &[
     "truncate",
     "bitflip",
@@ -231,7 +231,12 @@ pub fn gen_compose(t: &mut Tape, max_statements: u64) -> Scenario {
             continue;
         }
         let from = dep_path(&deps, &name, None, "wasm");
-        let to = format!("over/o{i}.wasm");
+        // (the value of `--dep name=path` may itself contain `=`)
+        let to = if t.chance(1, 4) {
+            format!("over=v2/o{i}.wasm")
+        } else {
+            format!("over/o{i}.wasm")
+        };
         match t.draw(4) {
             0 => {
                 // dangling override
@@ -292,13 +297,13 @@ pub fn gen_compose(t: &mut Tape, max_statements: u64) -> Scenario {
             // only dependency files
             let mut depsonly = Tree::default();
             for (p, b) in &tree.files {
-                if p.starts_with(&deps) || p.starts_with("over/") {
+                if p.starts_with(&deps) || p.starts_with("over") {
                     depsonly.file(p.clone(), b.clone());
                 }
             }
             let r = apply_fault(t, &mut depsonly, DEP_FAULTS, None);
             if r.is_some() {
-                tree.files.retain(|p, _| !(p.starts_with(&deps) || p.starts_with("over/")));
+                tree.files.retain(|p, _| !(p.starts_with(&deps) || p.starts_with("over")));
                 for (p, b) in depsonly.files {
                     tree.files.insert(p, b);
                 }
@@ -417,17 +422,19 @@ pub fn gen_targets(t: &mut Tape) -> Scenario {
     let mut tree = Tree::default();
     tree.dir("home");
     // (WIT text, its worlds, a component that conforms to one of them)
-    let choices: [(&str, &[&str], &str); 5] = [
-        (crate::corpus::WIT_PACKAGES[0].2, &["app-world", "logger-world"], "test:logger"),
-        (crate::corpus::WIT_PACKAGES[1].2, &["util-world", "plain-world"], "test:util"),
-        (crate::corpus::WIT_PACKAGES_2[0].2, &["only"], "test:plain"),
-        (crate::corpus::WIT_PACKAGES_2[1].2, &[], "test:plain"),
-        (crate::corpus::WIT_PACKAGES_2[2].2, &["nav-world"], "test:nav"),
+    // (WIT text, its worlds, components that conform to one of them or miss it narrowly:
+    //  an extra import only, a missing export only, a mismatched type)
+    let choices: [(&str, &[&str], &[&str]); 5] = [
+        (crate::corpus::WIT_PACKAGES[0].2, &["app-world", "logger-world"], &["test:logger", "test:app", "test:store", "test:mixer"]),
+        (crate::corpus::WIT_PACKAGES[1].2, &["util-world", "plain-world"], &["test:util", "test:plain", "test:leaf-c", "test:app11"]),
+        (crate::corpus::WIT_PACKAGES_2[0].2, &["only"], &["test:plain", "test:leaf-c", "test:leaf-a"]),
+        (crate::corpus::WIT_PACKAGES_2[1].2, &[], &["test:plain"]),
+        (crate::corpus::WIT_PACKAGES_2[2].2, &["nav-world"], &["test:nav", "test:navimpl", "test:conflict"]),
     ];
-    let (text, worlds, conforming) = choices[t.index(choices.len())];
-    // bias towards the conforming component so that the success verdict is reached
-    let ci = if t.chance(1, 2) {
-        lib.iter().position(|p| p.name == conforming).unwrap_or(comps[0])
+    let (text, worlds, near) = choices[t.index(choices.len())];
+    let ci = if t.chance(3, 4) {
+        let name = near[t.index(near.len())];
+        lib.iter().position(|p| p.name == name).unwrap_or(comps[0])
     } else {
         comps[t.index(comps.len())]
     };
